@@ -150,6 +150,7 @@ def run(R):
             R.viol("C19.on_remove", "removed", "on_remove must record Removed", onr, onr.lines[0])
         R.inst("C19.on_remove", "K6 flows-to", "on_remove: status = Removed", len(st), ok)
 
+    _save_after_ops(R)
     # (4) add
     add = R.body("C19.add", ADD + "::{closure#0}")
     if add is not None:
@@ -228,6 +229,28 @@ def run(R):
                 okn = False
                 R.viol("C19.add.name", "name-from-number:%s" % f, "NodeServiceData.%s is not derived from the unique service number" % f, add, add.lines[0])
         R.inst("C19.add.name", "K6 flows-to", "service_name, data_dir_path and number derive from the same counter", 3, okn)
+
+
+def _save_after_ops(R):
+    """cmd::node::{start,stop,remove,upgrade}: a successful ServiceManager operation is followed by registry.save()
+    before the next service is touched or the command returns"""
+    F = R.F
+    CMD = NM + "cmd::node::"
+    for cmd, op in (("start", SM + "start"), ("stop", SM + "stop"), ("remove", SM + "remove"), ("upgrade", SM + "upgrade")):
+        b = R.body("C19.save." + cmd, CMD + cmd + "::{closure#0}")
+        if b is None:
+            continue
+        prep(b)
+        g = cfg_of(b)
+        gd = CallGuard([op], ("Ok",), "ServiceManager::%s is Ok" % cmd)
+        n_, acc, rej = gd.edges(b)
+        sv = set(CallSink(REG + "::save").blocks(b))
+        ops = set(CallSink(op).blocks(b))
+        rets = {x["id"] for x in b.blocks if x["term"]["k"] == "return"}
+        ok = bool(acc) and bool(sv) and all(not (g.reach((d,), avoid=sv) & (rets | ops)) for _, d in acc)
+        if not ok:
+            R.viol("C19.save." + cmd, "unsaved:%s" % cmd, "cmd::node::%s can move on after a successful %s without saving the registry" % (cmd, cmd), b, b.lines[0])
+        R.inst("C19.save." + cmd, "K5 must-follow", "cmd::node::%s: registry.save() follows every successful %s" % (cmd, cmd), len(acc), ok)
 
 
 def _number_scheme(R, body_path, rule):
